@@ -25,7 +25,11 @@ pub struct Percentile {
 impl AggregateFunction for Percentile {
     fn process(&mut self, data: &Data) -> Result<(), EvalError> {
         let value: f64 = self.column.eval(data)?;
-        self.ckms.insert(value);
+        // NaN has no rank: inserted into the sketch it lands at an arbitrary place and breaks the
+        // order every later query relies on
+        if !value.is_nan() {
+            self.ckms.insert(value);
+        }
         Ok(())
     }
 
